@@ -1,2 +1,68 @@
+// C14 bounded stand-in: normalize_package_descriptor end to end (uriparse + iterator chains are outside Verus).
 use crate::Report;
-pub fn normalize(_thorough: bool) -> Report { Report::new("not implemented yet", "-") }
+use libcnb_data::buildpack::BuildpackId;
+use libcnb_data::package_descriptor::{PackageDescriptor, PackageDescriptorDependency};
+use std::collections::BTreeMap;
+use std::path::{Path, PathBuf};
+
+#[path = "/repo/libcnb-package/src/package_descriptor.rs"]
+#[allow(dead_code, unreachable_pub)]
+mod pd;
+// reference: lexical normalisation of a relative path against a directory
+fn lex(base: &Path, rel: &str) -> PathBuf {
+    let mut out: Vec<String> = base.components().filter_map(|c| match c { std::path::Component::Normal(x) => Some(x.to_string_lossy().to_string()), _ => None }).collect();
+    for part in rel.split('/') { match part { "" | "." => {}, ".." => { out.pop(); }, x => out.push(x.to_string()) } }
+    PathBuf::from(format!("/{}", out.join("/")))
+}
+pub fn normalize(thorough: bool) -> Report {
+    let maxd = if thorough { 3 } else { 2 };
+    let mut r = Report::new(
+        "every package descriptor with up to D dependencies drawn (with repetition, every order) from {libcnb:known/a, libcnb:known-b, libcnb:unknown, relative paths ./x, ../y, a/./b/../c, ../../../up, docker://img, https://h/p, urn:cnb:registry:x, /abs/./p} x id->path maps {complete, missing one} x 2 descriptor locations: the real normalize_package_descriptor replaces each libcnb: reference by the mapped location (missing id => error, never kept or dropped), makes each relative path absolute and dot-free relative to the descriptor's directory, copies every other URI verbatim, keeps count, order, buildpack URI and platform, and the result serialises and parses again; non-trivial = descriptors with at least one libcnb: or relative dependency",
+        &format!("D <= {maxd} dependencies over 11 URI kinds"),
+    );
+    let kinds: Vec<&str> = vec!["libcnb:known/a", "libcnb:known-b", "libcnb:unknown", "./x", "../y", "a/./b/../c", "../../../up", "docker://img", "https://h/p", "urn:cnb:registry:x", "/abs/./p"];
+    let locations = [PathBuf::from("/ws/buildpacks/meta/package.toml"), PathBuf::from("/package.toml")];
+    let mut full: BTreeMap<BuildpackId, PathBuf> = BTreeMap::new();
+    full.insert("known/a".parse().unwrap(), PathBuf::from("/out/known_a")); full.insert("known-b".parse().unwrap(), PathBuf::from("/out/known-b"));
+    let mut partial = full.clone(); partial.remove(&"known-b".parse::<BuildpackId>().unwrap());
+    let mut idx = vec![0usize; 0];
+    for d in 0..=maxd {
+        idx.clear(); idx.resize(d, 0);
+        loop {
+            let deps: Vec<&str> = idx.iter().map(|&i| kinds[i]).collect();
+            let toml_src = format!("[buildpack]\nuri = \".\"\n[platform]\nos = \"windows\"\n{}", deps.iter().map(|u| format!("[[dependencies]]\nuri = \"{u}\"\n")).collect::<String>());
+            let descriptor: PackageDescriptor = toml::from_str(&toml_src).unwrap();
+            for (mi, map) in [&full, &partial].iter().enumerate() {
+                for loc in &locations {
+                    r.evaluations += 1;
+                    if deps.iter().any(|u| u.starts_with("libcnb:") || (!u.contains(':') && !u.starts_with('/'))) { r.nontrivial += 1; }
+                    let got = pd::normalize_package_descriptor(&descriptor, loc, map);
+                    let missing = deps.iter().any(|u| *u == "libcnb:unknown" || (mi == 1 && *u == "libcnb:known-b"));
+                    let desc = format!("deps={deps:?} map={} location={loc:?}", if mi == 0 { "complete" } else { "missing known-b" });
+                    match got {
+                        Err(e) => { if !missing { r.violation("unexpected_error", "normalisation failed although every id has a location", desc, "Ok".into(), e.to_string()); } }
+                        Ok(n) => {
+                            if missing { r.violation("missing_id_is_error", "an id without a known location was left in place or dropped instead of being an error", desc.clone(), "Err".into(), format!("{:?}", n.dependencies.iter().map(|d| d.uri.to_string()).collect::<Vec<_>>())); continue; }
+                            let exp: Vec<String> = deps.iter().enumerate().map(|(di, u)| {
+                                if let Some(id) = u.strip_prefix("libcnb:") { map.get(&id.parse::<BuildpackId>().unwrap()).unwrap().to_string_lossy().to_string() }
+                                else if !u.contains(':') && !u.starts_with('/') { lex(loc.parent().unwrap(), u).to_string_lossy().to_string() }
+                                else { descriptor.dependencies[di].uri.to_string() } // verbatim = the URI as the descriptor parsed it
+                            }).collect();
+                            let gotu: Vec<String> = n.dependencies.iter().map(|d| d.uri.to_string()).collect();
+                            if gotu != exp { r.violation("dependencies", "normalised dependencies (count, order, values)", desc.clone(), format!("{exp:?}"), format!("{gotu:?}")); }
+                            if n.buildpack.uri.to_string() != descriptor.buildpack.uri.to_string() || format!("{:?}", n.platform) != format!("{:?}", descriptor.platform) { r.violation("buildpack_and_platform_kept", "buildpack URI / platform changed", desc.clone(), "unchanged".into(), "changed".into()); }
+                            match toml::to_string(&n).ok().and_then(|s| toml::from_str::<PackageDescriptor>(&s).ok()) { Some(back) => { if format!("{back:?}") != format!("{n:?}") { r.violation("reparse", "result does not parse back to itself", desc.clone(), "equal".into(), "different".into()); } } None => r.violation("reparse", "result does not serialise/parse", desc.clone(), "Ok".into(), "Err".into()) }
+                        }
+                    }
+                }
+            }
+            let mut p = d;
+            loop { if p == 0 { break; } p -= 1; idx[p] += 1; if idx[p] < kinds.len() { break; } idx[p] = 0; if p == 0 { p = usize::MAX; break; } }
+            if d == 0 || p == usize::MAX { break; }
+            if idx.iter().all(|&i| i == 0) { break; }
+        }
+    }
+    let _ = PackageDescriptorDependency::try_from("docker://x");
+    r.samples.push("deps [libcnb:known/a, ../y, docker://img] at /ws/buildpacks/meta/package.toml -> [/out/known_a, /ws/buildpacks/y, docker://img]".into());
+    r
+}
